@@ -81,9 +81,19 @@ func c16Gen(t *rapid.T) C16Case {
 // together from the other reference models: origin allowed, private-network
 // request only if a PNA mode is on, method safelisted / listed / *, requested
 // headers absent / covered by * / approved by the reference list reader.
-// judged is false where the documentation leaves the answer open (malformed
+// judged is false where the documentation leaves the answer open (several Origin/ACRM/ACRPN field lines, an ACRH key without values, malformed
 // Origin under allow-all, over-long origins, the known bracketed-host finding).
 func preflightOutcome(c Cfg, model OriginModel, r Req) (success, judged bool) {
+	// shapes no browser sends - several Origin, ACRM or ACRPN field lines, an ACRH key with no value at all - are
+	// not judged: the documentation does not say whether the first line or all lines count
+	for _, k := range []string{hOrigin, hACRM, hACRPN} {
+		if vs, ok := r.Get(k); ok && len(vs) != 1 {
+			return false, false
+		}
+	}
+	if vs, ok := r.Get(hACRH); ok && len(vs) == 0 {
+		return false, false
+	}
 	origin, _ := firstVal(r, hOrigin)
 	if _, wf := SplitOrigin(origin); wf && !hostLenOK(origin) {
 		return false, false
